@@ -224,6 +224,7 @@ fn add_stats(rep: &mut Report, out: &HOutcome) {
     rep.add("seeks_in_buffer", s.seeks_in_buffer as u64);
     rep.add("seeks_real", s.seeks_real as u64);
     rep.max("largest_set_read", s.largest_set as u64);
+    rep.add("positions_checked_after_an_error", s.positions_checked_after_error as u64);
     if s.largest_set > 65535 {
         rep.count("sets_read_with_more_than_65535_records");
     }
@@ -424,9 +425,9 @@ pub fn c05(ctx: &Ctx, rep: &mut Report) {
         }
         gen::tame(&mut cfg, bytes.len());
         let ops = gen_ops(&mut rng, r.recs.len(), r.has_err(), &w, if ctx.miri { 10 } else if ctx.tier_thorough { 70 } else { 40 });
-        let case = build_case(fmt, bytes, cfg, vec![], ops);
+        let mut case = build_case(fmt, bytes, cfg, vec![], ops);
         rep.evaluations += 1;
-        let out = run_history(
+        let mut out = run_history(
             &case,
             RunOpts {
                 iter_unknown_slots: false,
@@ -435,6 +436,33 @@ pub fn c05(ctx: &Ctx, rep: &mut Report) {
                 rep: Some(rep),
             },
         );
+        if !ctx.miri && idx % 8 == 5 && family != "huge-set" && out.deviations.is_empty() && out.stats.read_calls > 0 {
+            // the same history once more with one transient source error: the failing call returns it, the
+            // history goes on; every record returned afterwards must still report its true coordinates
+            // (what else may happen after an error is C06's and C14's business)
+            let k = 1 + rng.below(out.stats.read_calls);
+            case.faults = vec![Fault {
+                at_call: k,
+                on_seek: false,
+                kind: *rng.pick(&ERR_KINDS),
+                repeat: 1,
+            }];
+            rep.evaluations += 1;
+            rep.count("histories_repeated_with_a_transient_source_error");
+            let out2 = run_history(
+                &case,
+                RunOpts {
+                    iter_unknown_slots: false,
+                    necessity: false,
+                    err_fields: false,
+                    rep: None,
+                },
+            );
+            report_outcome(ctx, idx, rep, &case, &out2, &["position"], json!({"transient_fault_at_read_call": k}));
+            rep.add("positions_checked_after_an_error", out2.stats.positions_checked_after_error as u64);
+            case.faults.clear();
+            out.stats.positions_checked_after_error = 0;
+        }
         // after a seek the stream must be restored: order deviations in a history with seeks belong here too
         let has_seek = case.ops.iter().any(|o| matches!(o, Op::Seek(_)));
         let tags: &[&str] = if has_seek {
